@@ -18,7 +18,7 @@ if "--all" in sys.argv:
     checks = [prop] + ["C%02d" % i for i in range(1, 21) if "C%02d" % i != prop]
 ENV = dict(os.environ, GOFLAGS="-mod=mod", GOPROXY="off", GOSUMDB="off", GOTOOLCHAIN="local")
 def sh(cmd, cwd=None, timeout=3600):
-    p = subprocess.run(cmd, shell=True, cwd=cwd, env=ENV, stdout=subprocess.PIPE, stderr=subprocess.STDOUT, text=True, timeout=timeout)
+    p = subprocess.run(cmd, shell=True, cwd=cwd, env=ENV, stdout=subprocess.PIPE, stderr=subprocess.STDOUT, text=True, errors="replace", timeout=timeout)
     return p.returncode, p.stdout
 wt = "/tmp/confirm-" + sid
 sh("git -C /repo worktree remove --force %s" % wt)
